@@ -554,6 +554,8 @@ for _n in ('star-import-project', 'star-import-conditional-names', 'star-import-
            'star-import-then-rebind', 'rebind-then-star-import', 'star-import-all-listed', 'star-import-all-unlisted-keeps-earlier-binding', 'global-statement-at-module-level'):
     FEATURES[_n]['toplevel'] = True
 
+FEATURES['global-statement-at-module-level']['alone'] = True     # `global x` must precede every use of x
+
 
 def binds(st):
     """names the feature statement binds in its enclosing scope"""
